@@ -11,15 +11,16 @@ LEVEL_TEXT = ("Runtime monitoring: the real conversion, rotation-matrix and comp
               "executed on a boundary catalogue plus thousands of seeded random inputs; an oracle compares each result "
               "with independently computed references (atan2/acos, hand-built Rz*Ry*Rz, rigid-motion invariants). "
               "Held means held on the executions listed in the evidence, nothing more.")
-LEVEL_NOTE = "Trusted: numpy elementary functions, the checker's own reference formulas; magnitudes outside 1e-150..1e150 not explored."
+LEVEL_NOTE = "Trusted: numpy elementary functions (incl. hypot), the checker's own reference formulas; magnitudes 1e-290..1e290."
 TECHNIQUE = "runtime monitoring: generated inputs through the real functions, reference-model oracle on the observed results"
 INSTALL_MONITORS = False
 RULE = ("cases = boundary catalogue (axes, quadrant boundaries with +-0.0 / 1e-17 / 1e-300 components, "
-        "magnitudes 1e-150..1e150, angle triples 0/pi/2pi/negative/large) + seeded random clouds, angle triples and "
-        "composites of 1-6 spheres (flat, nested, RigidCluster); non-trivial = case produced >=1 finite residual and "
+        "magnitudes 1e-290..1e290, integer coordinate arrays up to 4e9, angle triples 0/pi/2pi/negative/large, angles as "
+        "Python numbers and as 0-d / integer arrays) + seeded random clouds, angle triples and "
+        "composites of 1-6 spheres (flat, nested two and three levels deep, RigidCluster, two-member CSG unions); non-trivial = case produced >=1 finite residual and "
         "is distinct after rounding its JSON to 6 significant digits")
 ASSUMPTIONS = ["numpy arctan2/sin/cos are correctly rounded to a few ulp",
-               "magnitudes outside 1e-150..1e150 are out of bounds (x*x leaves the normal range)"]
+               "magnitudes outside 1e-290..1e290 are out of bounds (products of coordinates and sines become subnormal / overflow)"]
 MIN_NONTRIVIAL = 10
 
 TWO_PI = 2 * math.pi
@@ -29,7 +30,7 @@ TOL = {
     "s2y2s": 1e-11, "y2s2y": 1e-11,
     "compose_cys": 1e-13, "compose_scy": 1e-13, "norm_sph": 1e-14, "norm_cyl": 1e-14,
     "phi_vs_atan2": 1e-15, "theta_vs_acos": 1e-9, "identity": 0.0,
-    "orth": 1e-14, "det": 1e-14, "zyz": 1e-14, "deg": 1e-12, "deg_same_numbers": 1e-14, "rotpts": 1e-13, "rotdist": 1e-13, "rotpts@int_forms": 1e-13, "int_forms": 0.0, "rotpts@float32": 1e-6,
+    "orth": 1e-14, "det": 1e-14, "zyz": 1e-14, "deg": 1e-12, "deg_same_numbers": 1e-14, "deg_integer_arrays": 1e-14, "rotpts": 1e-13, "rotdist": 1e-13, "rotpts@int_forms": 1e-13, "int_forms": 0.0, "int_forms@large": 1e-15, "rotpts@float32": 1e-6,
     "pair_rot": 1e-12, "centroid_rot": 1e-12, "pair_tr": 1e-12, "centroid_tr": 1e-12, "rigid_pos": 1e-12,
     "tr3": 0.0, "rot3": 0.0,
 }
@@ -49,7 +50,7 @@ def cases(tier, seed):
     out.append({"id": "pts-catalogue", "kind": "pts", "points": cat})
     out.append({"id": "pts-axes", "kind": "pts", "points": [[1, 0, 0], [-1, 0, 0], [0, 1, 0], [0, -1, 0], [0, 0, 1],
                                                           [0, 0, -1], [0, 0, 0], [3, 0, 4], [0, 3, -4]]})
-    for i, mag in enumerate([1e-150, 1e-100, 1e-30, 1e-8, 1, 1e8, 1e30, 1e100, 1e150]):
+    for i, mag in enumerate([1e-150, 1e-100, 1e-30, 1e-8, 1, 1e8, 1e30, 1e100, 1e150, 1e-290, 1e-200, 1e-170, 1.3e155, 1e200, 1e290]):
         out.append({"id": "pts-mag-%d" % i, "kind": "pts", "seed": [seed, "mag", i], "n": 60, "mag": mag})
     for i in range(n_rand):
         out.append({"id": "pts-rand-%d" % i, "kind": "pts", "seed": [seed, "pts", i], "n": 40, "mag": None,
@@ -67,10 +68,10 @@ def cases(tier, seed):
     # composites
     for i in range(n_rand):
         out.append({"id": "comp-%d" % i, "kind": "comp", "seed": [seed, "comp", i],
-                    "shape": ["spheres", "scatterers", "nested", "rigid"][i % 4], "nmem": 1 + (i // 4) % 6})
+                    "shape": ["spheres", "scatterers", "nested", "rigid", "nested3", "csg"][i % 6], "nmem": 1 + (i // 6) % 6})
     for i in range(40 if tier == "quick" else 600):
         out.append({"id": "comp-lattice-%d" % i, "kind": "comp", "seed": [seed, "complat", i], "lattice": 1 + i % 5,
-                    "shape": ["spheres", "scatterers", "nested", "rigid"][(i // 5) % 4], "nmem": 2 + (i // 20) % 4})
+                    "shape": ["spheres", "scatterers", "nested", "rigid", "nested3", "csg"][(i // 5) % 6], "nmem": 2 + (i // 30) % 4})
     return out
 
 
@@ -122,8 +123,8 @@ def _run_pts(case):
     from holopy.core.math import find_transformation_function as ftf
     p = _points(case)
     x, y, z = p[:, 0].copy(), p[:, 1].copy(), p[:, 2].copy()
-    r_true = np.sqrt(x * x + y * y + z * z)
     rho_true = np.hypot(x, y)
+    r_true = np.hypot(rho_true, z)            # (no squares: they over/underflow beyond 1e+-154)
     scale = np.where(r_true > 0, r_true, 1.0)
     resid, flags = {}, {}
     c2s, c2y = ftf("cartesian", "spherical"), ftf("cartesian", "cylindrical")
@@ -148,7 +149,7 @@ def _run_pts(case):
         resid["theta_vs_acos"] = _mx(np.abs(theta[ok] - np.arccos(np.clip(z[ok] / r_true[ok], -1, 1))))
     # norms
     resid["norm_sph"] = _mx(np.abs(sph[0] - r_true) / scale)
-    resid["norm_cyl"] = _mx(np.abs(np.sqrt(cyl[0] ** 2 + cyl[2] ** 2) - r_true) / scale)
+    resid["norm_cyl"] = _mx(np.abs(np.hypot(cyl[0], cyl[2]) - r_true) / scale)
     # round trips from cartesian (valid everywhere)
     back = np.asarray(s2c(sph))
     resid["c2s2c"] = _mx(np.abs(back - np.array([x, y, z])).max(0) / scale)
@@ -199,6 +200,11 @@ def _run_pts(case):
             break
         worst = max(worst, float(np.abs(gs - fs).max()), float(np.abs(gy - fy).max()))
     resid["int_forms"] = fnum(worst)
+    # large whole numbers as integer arrays (their squares do not fit into 64 bits)
+    big = np.array([[4_000_000_000, 3, 5], [3, -5_000_000_000, 1], [7, 2, 6_000_000_000]], dtype=np.int64).T
+    gb = np.asarray(c2s([big[0], big[1], big[2]]), dtype=float)
+    fb = np.asarray(c2s([big[0].astype(float), big[1].astype(float), big[2].astype(float)]))
+    resid["int_forms@large"] = fnum(float(np.nanmax(np.abs(gb - fb) / np.maximum(np.abs(fb), 1e-300))) if np.all(np.isfinite(gb)) else np.inf)
     # scalar z is broadcast
     if case.get("scalar_z"):
         zc = float(z[0])
@@ -237,6 +243,18 @@ def _run_rot(case):
     Rn = rotation_matrix(a, b, g, radians=False)
     refn = _Rz(math.radians(g)) @ _Ry(math.radians(b)) @ _Rz(math.radians(a))
     resid["deg_same_numbers"] = fnum(np.abs(Rn - refn).max())
+    # angles handed over as numpy arrays (0-d float, 0-d integer) stay the caller's: unchanged, and a second call agrees
+    arrs = [np.array(a), np.array(b), np.array(g)]
+    Ra1 = rotation_matrix(arrs[0], arrs[1], arrs[2], radians=False)
+    Ra2 = rotation_matrix(arrs[0], arrs[1], arrs[2], radians=False)
+    flags["array_angles_not_modified"] = bool(float(arrs[0]) == a and float(arrs[1]) == b and float(arrs[2]) == g and np.array_equal(Ra1, Ra2) and np.array_equal(Ra1, Rn))
+    ia = [np.array(int(round(a)) % 360), np.array(int(round(b)) % 360), np.array(int(round(g)) % 360)]
+    try:
+        Ri = rotation_matrix(ia[0], ia[1], ia[2], radians=False)
+        refi = _Rz(math.radians(int(ia[2]))) @ _Ry(math.radians(int(ia[1]))) @ _Rz(math.radians(int(ia[0])))
+        resid["deg_integer_arrays"] = fnum(np.abs(Ri - refi).max())
+    except Exception as e:
+        flags["integer_array_angles_accepted"] = False
     flags["repeat_after_other_unit"] = bool(np.array_equal(rotation_matrix(a, b, g), R) and np.array_equal(rotation_matrix(a, b, g, radians=False), Rn))
     rng = rng_for("rotpts", a, b, g)
     pts = rng.normal(size=(7, 3)) * 3
@@ -316,7 +334,28 @@ def _run_comp(case):
         got2 = np.array([s.center for s in fp.scatterers], dtype=float)
         resid["rigid_pos@from_parameters"] = fnum(np.abs(got2 - exp).max() / (np.abs(exp).max() + scale))
         return {"resid": resid, "flags": flags, "shape": shape, "n": n}
-    if shape == "spheres":
+    if shape == "csg":
+        # two-member union: HoloPy's documented pivot for shape algebra is the FIRST member's centre
+        from holopy.scattering.scatterer import Union
+        a0, b0 = sph[0], (sph[1] if n > 1 else Sphere(n=1.5, r=float(rad[0]), center=[float(v) for v in cen[0] + scale]))
+        b0 = Sphere(n=a0.n, r=b0.r, center=b0.center)
+        u = Union(a0, b0)
+        before = digest(u)
+        ur = u.rotated(*ang)
+        c0 = np.array([a0.center, b0.center], dtype=float)
+        c1 = np.array([ur.s1.center, ur.s2.center], dtype=float)
+        exp = c0[0] + (Rref @ (c0 - c0[0]).T).T
+        resid["rigid_pos"] = fnum(np.abs(c1 - exp).max() / (np.abs(exp).max() + scale))
+        resid["pair_rot"] = fnum(abs(np.linalg.norm(c1[0] - c1[1]) - np.linalg.norm(c0[0] - c0[1])) / scale)
+        ut = u.translated(*t)
+        c2 = np.array([ut.s1.center, ut.s2.center], dtype=float)
+        resid["rigid_pos@translated"] = fnum(np.abs(c2 - (c0 + t)).max() / (np.abs(c0).max() + np.abs(t).max() + 1e-300))
+        flags["original_untouched"] = bool(digest(u) == before)
+        return {"resid": resid, "flags": flags, "shape": shape, "n": 2}
+    if shape == "nested3" and n >= 3:
+        # three levels, unbalanced: [A, [B, [C, D, ...]]]
+        comp = Scatterers([sph[0], Scatterers([sph[1], Scatterers(sph[2:])])])
+    elif shape == "spheres" or shape == "nested3":
         comp = Spheres(sph, warn=False)
     elif shape == "scatterers":
         comp = Scatterers(sph)
